@@ -546,6 +546,18 @@ class KillScenario:
                                    valid=[L.seal_ok(c or b'') for c in cp], shape=self.spec['name'], output=out[-500:].decode(errors='replace'))
                         obs['cases'] += 1
                         same = all(c == cp[0] for c in cp) and L.seal_ok(cp[0] or b'')
+                        # model <-> C: LoadChoice.need_write on the sizes the command found, against "did it save"
+                        if getattr(self, 'model_exe', None):
+                            import common
+                            before = [new if i != j else {'stale': old, 'missing': None, 'truncated': new[:-7], 'extended': new + b'\x00tail',
+                                                         'bitflip_same_size': new}[kind] for i in range(self.nc)]
+                            line = 'needwrite ' + ' '.join('-' if c is None else str(len(c)) for c in before)
+                            pred = common.run_lines(self.model_exe, [line], shards=1)[0]
+                            saved = b'Saving state to' in out
+                            obs['model_cases'] = obs.get('model_cases', 0) + 1
+                            if (pred == 'true') != saved:
+                                obs['model_disagree'] = obs.get('model_disagree', 0) + 1
+                                self.drift = getattr(self, 'drift', []) + [dict(rep, model_line=line, model=pred, tool_saved=saved)]
                         if kind == 'bitflip_same_size':
                             # the unchanged tree compares sizes only: recorded, reported to the evidence, not judged here
                             if not same:
